@@ -492,8 +492,16 @@ def suite_malformed(ctx: Ctx) -> SuiteResult:
 
 def search(ctx: Ctx, disagreements, broken):
     import random
+    import syscheck
     out: list[Violation] = []
+    sysd = [d for d in disagreements if isinstance(d.case, dict) and "scenario" in d.case]
+    if sysd:
+        out = syscheck.make_search("C18", ["C18"])(ctx, sysd, broken)
+        if out:
+            return out
     for d in disagreements:
+        if isinstance(d.case, dict) and "scenario" in d.case:
+            continue
         vs, _, _ = run_case(d.case, None)
         out += vs
     if out:
@@ -510,6 +518,9 @@ def search(ctx: Ctx, disagreements, broken):
 def replay(ctx: Ctx, payload: dict) -> SuiteResult:
     res = SuiteResult("replay")
     case = payload.get("case") or payload.get("first_disagreement")
+    if isinstance(case, dict) and "scenario" in case:
+        import syscheck
+        return syscheck.make_replay("C18")(ctx, payload)
     vs, d, tr = run_case(case, ctx.driver)
     res.evaluations = 1
     res.violations = vs
@@ -521,12 +532,20 @@ def replay(ctx: Ctx, payload: dict) -> SuiteResult:
 
 if __name__ == "__main__":
     setup_repo_path()
+    import logging
+    logging.disable(logging.CRITICAL)
+    import syscheck
+    sys_suites = syscheck.make_suites("C18", [("C18", 100, 2500)],
+        "real launch() with a LatestStatesKeeper (max_keep 0-2) under seeded random schedules: saves by command and "
+        "by condition, while running and while paused (PAUSE then SAVE_STATE), back to back; after every cleanup of "
+        "the control loop the states directory must hold exactly the max_keep most recently saved states; traces "
+        "also replayed through Pamiq.Proto / Pamiq.Tick; non-trivial = at least one runtime save")
     try:
         code = run_check(
             "C18", lean_modules=["Pamiq.Props.C18"],
             required_theorems=["Pamiq.Keeper.keeps_newest", "Pamiq.Keeper.removes_older",
                                "Pamiq.Keeper.touches_only_tracked", "Pamiq.Keeper.ctor_rejects_negative"],
-            suites=[suite_exhaustive, suite_random, suite_malformed], search=search, replay=replay,
+            suites=[suite_exhaustive, suite_random, suite_malformed, *sys_suites], search=search, replay=replay,
             assumptions=[
                 "modification times of the start-up states are distinct (the property's own premise)",
                 "appended paths are new: not currently tracked (StateStore.save_state creates the "
